@@ -19,7 +19,7 @@ LEVEL = "fault_enumeration"
 QUICK_RUNS = 6000
 BATCH = 200
 SWEEP_BATCH = 400
-SWEEP_EXHAUSTIVE_NOTE = ("single-fault sweep: every cell (columns 0-7) of every row of the 4 base CIDs and every cell of the "
+SWEEP_EXHAUSTIVE_NOTE = ("single-fault sweep: every cell (columns 0-7) of every row of the 5 base CIDs and every cell of the "
                          "base data tables is replaced, one at a time, by each member of the hostile pool; and the "
                          "peer-generated ODS and XLSX base data files get every single bit flipped and are truncated at "
                          "every offset; exhaustive for that sub-space")
